@@ -7,6 +7,7 @@ import (
 	"fmt"
 	"io"
 	"reflect"
+	"runtime"
 	"strings"
 	"testing"
 
@@ -88,6 +89,19 @@ func drawStream(t *rapid.T) StreamCase {
 		if long && gen.OneIn(t, 8, "gap") {
 			buf.WriteString(strings.Repeat(rapid.SampledFrom([]string{" ", "\n", " \t"}).Draw(t, "gapc"), rapid.SampledFrom([]int{100, 511, 512, 513, 1500, 4096}).Draw(t, "gapn")))
 		}
+		if gen.OneIn(t, 60, "huge") {
+			// one value far beyond any read buffer the decoder would want to keep (64 KiB and more), then more values
+			switch gen.Uniform(t, 0, 2, "hugek") {
+			case 0:
+				buf.WriteString(`"` + strings.Repeat("x", rapid.SampledFrom([]int{65536, 70000, 140000}).Draw(t, "hugen")) + `"`)
+			case 1:
+				buf.WriteString("[" + strings.Repeat("12345,", rapid.SampledFrom([]int{11000, 24000}).Draw(t, "hugea")) + "0]")
+			default:
+				buf.WriteString(`{"k":"` + strings.Repeat("y\\n", 30000) + `","z":[1,2]}`)
+			}
+			buf.WriteString(rapid.SampledFrom([]string{"", " ", "\n"}).Draw(t, "hsep"))
+			continue
+		}
 		v := richCfg.Value(3).Draw(t, "v")
 		if gen.OneIn(t, 3, "spell") {
 			buf.WriteString(gen.Spell(t, v, "sp"))
@@ -142,6 +156,23 @@ func tokNorm(tk any) any {
 }
 
 // trace runs a decoder through the mode's action script and records everything observable.
+// errDetail: the error's dynamic type plus, for type errors (well-formed text,
+// wrong Go type), what they carry - compared only under the toolchain the
+// agreement was measured with. Offsets of syntax errors are not compared:
+// ill-formed texts are outside C17's domain (and on the pinned tree the offset
+// reported by Unmarshal drifts from call to call, see DESIGN 9.3).
+func errDetail(err error) string {
+	s := errType(err)
+	if !strings.HasPrefix(runtime.Version(), "go1.23") {
+		return s
+	}
+	switch err.(type) {
+	case *fj.UnmarshalTypeError, *stdjson.UnmarshalTypeError:
+		return s + " " + typeErrDetail(err)
+	}
+	return s
+}
+
 func traceFork(c StreamCase) (tr []any) {
 	d := fj.NewDecoder(&chunkReader{b: c.Stream, n: c.Chunk, eofData: c.EOFWithData, stall: c.Stall, fail: c.FailAfter})
 	d.UseNumber()
@@ -150,7 +181,7 @@ func traceFork(c StreamCase) (tr []any) {
 		useTok := c.Mode == "token" || (c.Mode == "mixed" && step%3 != 2) || (c.Mode == "typed" && step%4 == 0)
 		if useTok {
 			tk, err := d.Token()
-			tr = append(tr, "token", tokNorm(tk), errType(err))
+			tr = append(tr, "token", tokNorm(tk), errDetail(err))
 			if err != nil {
 				break
 			}
@@ -158,14 +189,14 @@ func traceFork(c StreamCase) (tr []any) {
 			// decode into a type most values do not fit: a type error must leave the stream usable
 			var n int8
 			err := d.Decode(&n)
-			tr = append(tr, "decode-int8", n, errType(err))
+			tr = append(tr, "decode-int8", n, errDetail(err))
 			if err != nil && errType(err) != "*json.UnmarshalTypeError" {
 				break
 			}
 		} else {
 			var v any
 			err := d.Decode(&v)
-			tr = append(tr, "decode", norm(reflect.ValueOf(&v).Elem()), errType(err))
+			tr = append(tr, "decode", norm(reflect.ValueOf(&v).Elem()), errDetail(err))
 			if err != nil {
 				break
 			}
@@ -186,7 +217,7 @@ func traceStd(c StreamCase) (tr []any) {
 		useTok := c.Mode == "token" || (c.Mode == "mixed" && step%3 != 2) || (c.Mode == "typed" && step%4 == 0)
 		if useTok {
 			tk, err := d.Token()
-			tr = append(tr, "token", tokNorm(tk), errType(err))
+			tr = append(tr, "token", tokNorm(tk), errDetail(err))
 			if err != nil {
 				break
 			}
@@ -194,14 +225,14 @@ func traceStd(c StreamCase) (tr []any) {
 			// decode into a type most values do not fit: a type error must leave the stream usable
 			var n int8
 			err := d.Decode(&n)
-			tr = append(tr, "decode-int8", n, errType(err))
+			tr = append(tr, "decode-int8", n, errDetail(err))
 			if err != nil && errType(err) != "*json.UnmarshalTypeError" {
 				break
 			}
 		} else {
 			var v any
 			err := d.Decode(&v)
-			tr = append(tr, "decode", norm(reflect.ValueOf(&v).Elem()), errType(err))
+			tr = append(tr, "decode", norm(reflect.ValueOf(&v).Elem()), errDetail(err))
 			if err != nil {
 				break
 			}
@@ -215,7 +246,7 @@ func traceStd(c StreamCase) (tr []any) {
 }
 
 func checkStream(c StreamCase) ev.Verdict {
-	if c.Chunk < 1 || c.Chunk > 1<<16 || len(c.Stream) > 1<<16 || c.Stall < 0 || c.Stall > 8 || c.FailAfter < 0 {
+	if c.Chunk < 1 || c.Chunk > 1<<16 || len(c.Stream) > 1<<20 || c.Stall < 0 || c.Stall > 8 || c.FailAfter < 0 {
 		return ev.Excluded("chunk/stream size outside the unit")
 	}
 	v := ev.Verdict{Classes: []string{"mode=" + c.Mode, fmt.Sprintf("empty-reads=%d", c.Stall), fmt.Sprintf("source-fails=%v", c.FailAfter > 0)}}
